@@ -34,6 +34,7 @@ class Prop:
         self.level_note = level_note
         self.technique = technique
         self.design_ref = design_ref
+        self.model_input = None         # (case, impl answer) -> model input line (inputs read off the implementation)
 
 
 def default_describe(case):
@@ -69,7 +70,8 @@ def evaluate(prop, exe, cases):
         crashes.append((len(keep), "skipped:%d-cases-behind-restart-cap" % (len(cases) - len(keep)), ""))
         cases[:] = [cases[i] for i in keep]
         impl = [impl[i] for i in keep]
-    model = core.run_driver("model", cases)
+    mi = getattr(prop, "model_input", None)
+    model = core.run_driver("model", [mi(c, a) for c, a in zip(cases, impl)] if mi else cases)
     judged = core.run_driver("judge", [c + "\t=>\t" + a for c, a in zip(cases, impl)])
     verdicts, feats = [], []
     for j in judged:
